@@ -8,7 +8,7 @@ CONSTANTS
   MaxLevel = 3
   InitBases <- MCInitBases
   Crafts <- CraftsQuick
-  Perms = {"owner", "writer", "anyone"}
+  Perms = {"anyone"}
   Thirds = {"same", "perm", "addr"}
 VIEW MCView
 PROPERTIES AuthorisedRaw
